@@ -107,6 +107,18 @@ class GCPMapping:
             multipoint(self._wld.tolist(), self.crs),
         )
 
+    def __eq__(self, other: object) -> bool:
+        if self is other:
+            return True
+        if not isinstance(other, GCPMapping):
+            return False
+        return (
+            self._crs == other._crs
+            and self._pix.shape == other._pix.shape
+            and bool((self._pix == other._pix).all())
+            and bool((self._wld == other._wld).all())
+        )
+
     def __dask_tokenize__(self):
         return (
             "odc.geo._gcp.GCPMapping",
@@ -168,7 +180,7 @@ class GCPGeoBox(GeoBoxBase):
         return (wx, wy)
 
     def __hash__(self):
-        return hash((*self._shape, self._affine, self._crs, id(self._mapping)))
+        return hash((*self._shape, self._affine, self._crs))
 
     @property
     def linear(self) -> bool:
@@ -284,7 +296,7 @@ class GCPGeoBox(GeoBoxBase):
 
         return (
             self._shape == __o.shape
-            and self._mapping is __o._mapping
+            and self._mapping == __o._mapping
             and self._affine == __o._affine
         )
 
